@@ -26,7 +26,7 @@ REQUIRED_MONITORS = ["F1sq_le_F2", "I_equals_scale_F2_over_V", "lowq_equality_mo
 REQUIRED_BUCKETS = {"quick": ["pd:off", "pd:on", "mesh>100", "mode:volume-sphere", "hollow", "lane:asan", "zero-default-length-switched-on", "mesh-crosses-validity-condition",
                               "after-product-built-with-this-form-factor", "special:lengths-exactly-equal",
                               "special:equal-lengths-with-equal-dispersity", "entry:2d-with-orientation-spread",
-                              "cutoff>0:removes-mesh-points", "entry:DirectModel-cutoff-0", "reparameterised-form-factor"]}
+                              "cutoff>0:removes-mesh-points", "entry:DirectModel-cutoff-0", "reparameterised-form-factor", "entry:mono-switch"]}
 REQUIRED_BUCKETS["thorough"] = REQUIRED_BUCKETS["quick"]
 SPHERICAL = ["sphere", "core_shell_sphere", "fuzzy_sphere", "core_multi_shell", "onion", "spherical_sld", "vesicle",
              "multilayer_vesicle"]
@@ -284,6 +284,13 @@ def run_case(case, rec):
                   None if okd else dict(ctx, I_DirectModel_cutoff_0=Idm, I_call_kernel_cutoff_0=I,
                                         note="DirectModel(data, model, cutoff=0) against scale*<F^2>/<V>+background of the whole mesh"))
         rec.bucket("entry:DirectModel-cutoff-0")
+        # the monodisperse switch of both entry points on a parameter set that carries distributions
+        Im = np.asarray(direct_model.call_kernel(kernel, dict(pars), mono=True), float)
+        F1m, F2m, _Rm, Vsm, _rm = direct_model.call_Fq(kernel, dict(pars, radius_effective_mode=0), mono=True)
+        okm = core.close(Im, scale*np.asarray(F2m, float)/Vsm + bg, 1e-12, 1e-14*float(np.max(np.abs(Im))))
+        rec.check("I_equals_scale_F2_over_V", okm,
+                  None if okm else dict(ctx, I_mono=Im, F2_mono=F2m, V_shell_mono=Vsm, note="call_kernel(mono=True) against call_Fq(mono=True)"))
+        rec.bucket("entry:mono-switch")
     # the same (shape-monodisperse) particles seen through the 2-D entry with a spread of orientations: the
     # reported radius and volumes are those of the particle
     angs = [p_.name for p_ in i.parameters.orientation_parameters]
